@@ -511,6 +511,12 @@ func (o *Obligation) SMT(withModel bool, forCVC5 bool) string {
 			strAx = append(strAx, &Term{K: TApp, Op: "distinct", Sort: SBool, Args: ts})
 		}
 	}
+	if _, ok := d.funs["modaddr"]; ok {
+		// module account addresses are hashes of the module names: distinct names, distinct addresses (collision-freeness of
+		// the hash, a stated assumption of the library model)
+		a, b := Bound("a", SStr), Bound("b", SStr)
+		strAx = append(strAx, Forall([]*Term{a, b}, Implies(Eq(modAddr(a), modAddr(b)), Eq(a, b)), []*Term{modAddr(a), modAddr(b)}))
+	}
 	if _, ok := d.funs["toBech32"]; ok {
 		// bech32 decoding is the inverse of encoding
 		a := Bound("a", SStr)
